@@ -9,8 +9,12 @@ partial def loop (h : IO.FS.Stream) (out : IO.FS.Stream) : IO Unit := do
   | none => out.putStrLn "?\tBADLINE"
   loop h out
 
-def main : IO Unit := do
-  let stdin ← IO.getStdin
+def main (args : List String) : IO Unit := do
   let stdout ← IO.getStdout
-  loop stdin stdout
+  match args with
+  | ["tables", pid] =>
+    for l in tableReport pid do stdout.putStrLn l
+  | _ =>
+    let stdin ← IO.getStdin
+    loop stdin stdout
   stdout.flush
